@@ -123,14 +123,14 @@ def introspection(ck, mir, S, res):
     for r in cls_res:
         c = r["cls"]
         if "error" in r:
-            ck.witness("C11:introspection-raises:%s" % c, "info()/parentinfo()/signature raised: " + r["error"][:200], input={"class": c})
+            ck.witness("C11:introspection-raises", "info()/parentinfo()/signature raised: " + r["error"][:200], input={"class": c})
             continue
         ok_res.append(r)
         ck.count(1, nontrivial_key="real:" + c if r["info"] else None)
         info = set(x.split("|")[0] for x in r["info"])
         sig = [n for n in r["sig"] if n not in supergen.TECHNICAL]
         if set(r["list"]) != info or r["list_from_dict"] != list(dict.fromkeys(r["list_from_dict"])) or set(r["list_from_dict"]) != info:
-            ck.witness("C11:info-list-vs-dict:%s" % c, "info(list) and info(dict) name different members", input={"class": c},
+            ck.witness("C11:info-list-vs-dict", "info(list) and info(dict) name different members", input={"class": c},
                        expected=sorted(info), observed=sorted(r["list"]))
         if info != set(sig):
             if set(rename_any(n) for n in info) == set(sig) and c in ANY6:
@@ -140,7 +140,7 @@ def introspection(ck, mir, S, res):
                 ck.witness("C11:info-vs-constructor:%s" % c, "real info() %s vs real signature %s" % (sorted(info - set(sig)), sorted(set(sig) - info)),
                            input={"class": c}, expected=sorted(sig), observed=sorted(info))
         if r["unused_kw"]:
-            ck.witness("C11:constructor-keyword-not-stored:%s" % c, "keywords accepted but not stored: %s" % r["unused_kw"], input={"class": c})
+            ck.witness("C11:constructor-keyword-not-stored", "keywords accepted but not stored: %s" % r["unused_kw"], input={"class": c})
         if not r["has_kwargs"]:
             ck.tally("constructor-without-**kwargs")
     # parentinfo is the inverse of info over all classes (on the real answers)
@@ -155,15 +155,15 @@ def introspection(ck, mir, S, res):
         got = set(r["parents"])
         ck.count(1, nontrivial_key="parents:" + c if want else None)
         if want != got:
-            ck.witness("C11:parentinfo-not-inverse:%s" % c, "parentinfo() of %s: missing %s, extra %s" % (c, sorted(want - got)[:4], sorted(got - want)[:4]),
+            ck.witness("C11:parentinfo-not-inverse", "parentinfo() of %s: missing %s, extra %s" % (c, sorted(want - got)[:4], sorted(got - want)[:4]),
                        input={"class": c}, expected=sorted(want), observed=sorted(got))
         if sorted(set(x.split("|")[0] for x in r["parents"])) != r["parent_list"]:
-            ck.witness("C11:parentinfo-list-vs-dict:%s" % c, "parentinfo(list) differs from the keys of parentinfo(dict)", input={"class": c})
+            ck.witness("C11:parentinfo-list-vs-dict", "parentinfo(list) differs from the keys of parentinfo(dict)", input={"class": c})
     # classes parentinfo can see
     mc = set(res["module_classes"])
     for c in mir.order:
         if c not in mc:
-            ck.witness("C11:class-not-in-module:%s" % c, "binding class is not a plain class of the module", input={"class": c})
+            ck.witness("C11:class-not-in-module", "binding class is not a plain class of the module", input={"class": c})
     return ok_res
 
 
